@@ -276,6 +276,16 @@ class VCoro(V):
         self.label = label
 
 
+class VByteArray(V):
+    """bytearray: mutable bytes (content = z3 String under (ref,'content')); class_level marks an object created by a
+    class-body assignment, i.e. shared by every instance of the class"""
+    kind = "bytearray"
+
+    def __init__(self, ref, class_level=False):
+        self.ref = ref
+        self.class_level = class_level
+
+
 class VRaw(V):
     """a raw z3 term of the abstract Redis store, visible to specifications only (equality)"""
     kind = "raw"
